@@ -211,9 +211,39 @@ func runPedersen(t *core.Tape, tier string, info *core.RunInfo, protocol bool) *
 	if !honestClass {
 		budgetOld := len(w.oldNodes) - w.oldT
 		budgetNew := len(w.newNodes) - w.newT
+		// scenario bias: in a resharing with leaving dealers, the new holder with the smallest index
+		// complains about a leaving dealer (the shape of the repaired defect c843097)
+		forced := -1
+		if w.reshare && budgetNew > 0 && t.Bool("cfg.faulty", 200) {
+			hasLeaving := false
+			for _, p := range w.parties {
+				if p.inOld() && !p.inNew() {
+					hasLeaving = true
+				}
+			}
+			if hasLeaving {
+				best := -1
+				for i, p := range w.parties {
+					if p.inNew() && (best < 0 || p.nidx < w.parties[best].nidx) {
+						best = i
+					}
+				}
+				if best >= 0 && !(w.parties[best].inOld() && budgetOld == 0) {
+					forced = best
+				}
+			}
+		}
+		if forced >= 0 {
+			p := w.parties[forced]
+			p.faulty, p.beh = "byz", map[string]bool{"resp-false-complaint": true}
+			budgetNew--
+			if p.inOld() {
+				budgetOld--
+			}
+		}
 		for _, k := range t.Perm("cfg.faulty", len(w.parties)) {
 			p := w.parties[k]
-			if !t.Bool("cfg.faulty", 500) {
+			if k == forced || !t.Bool("cfg.faulty", 500) {
 				continue
 			}
 			if (p.inOld() && budgetOld == 0) || (p.inNew() && budgetNew == 0) {
